@@ -43,6 +43,14 @@ func (s *vfSM) fitsAlways() bool {
 	return s.cfg.MaxCost >= int64(s.cfg.Keys)*per
 }
 
+// alsoC06: when everything fits, C06 claims every observable result equals the reference map with its FIFO.
+func (s *vfSM) alsoC06(v *vfViol) *vfViol {
+	if s.fitsAlways() {
+		v.Also = "C06"
+	}
+	return v
+}
+
 func (s *vfSM) peek(key uint64) (uint64, bool) { return s.c.storedItems.Get(key, 0) }
 
 func (s *vfSM) fifoCap() int { return cap(s.c.setBuf) }
@@ -70,12 +78,12 @@ func (s *vfSM) classifyRead(what string, key, v uint64, ok bool, now time.Time) 
 				return vfV("C07", "served-after-expiry", "%s(%d) returned %d at %v although it expired at %v", what, key, v, now.Format("15:04:05.000000000"), ent.exp.Format("15:04:05.000000000"))
 			}
 			if s.deleted[key] && len(s.fifo) == 0 {
-				return vfV("C05", "hit-after-del-and-wait", "%s(%d) returned %d although Del(%d) completed, writes drained and no Set was issued since", what, key, v, key)
+				return s.alsoC06(vfV("C05", "hit-after-del-and-wait", "%s(%d) returned %d although Del(%d) completed, writes drained and no Set was issued since", what, key, v, key))
 			}
 			return nil
 		}
 		if s.deleted[key] && len(s.fifo) == 0 {
-			return vfV("C05", "hit-after-del-and-wait", "%s(%d) returned %d although Del(%d) completed, writes drained and no Set was issued since", what, key, v, key)
+			return s.alsoC06(vfV("C05", "hit-after-del-and-wait", "%s(%d) returned %d although Del(%d) completed, writes drained and no Set was issued since", what, key, v, key))
 		}
 		if ti.state == tGone {
 			return vfV("C02", "older-value-served", "%s(%d) returned %d which had been overwritten/removed before (model holds %v)", what, key, v, ent)
@@ -276,7 +284,7 @@ func (s *vfSM) checkDrained(vs *[]*vfViol) {
 			continue
 		}
 		if v, ok := s.peek(k); ok {
-			s.add(vs, vfV("C05", "hit-after-del-and-wait", "Get(%d) returns %d although Del completed, writes drained and no Set was issued since", k, v))
+			s.add(vs, s.alsoC06(vfV("C05", "hit-after-del-and-wait", "Get(%d) returns %d although Del completed, writes drained and no Set was issued since", k, v)))
 		}
 	}
 	if len(s.resident) > 0 {
@@ -505,9 +513,11 @@ func (s *vfSM) applyPend(p vfPend, evs []vfCB, est map[uint64]int64, vs *[]*vfVi
 				s.add(vs, vfV("C04", "unexpected-callback", "applying the insert of value %d rejected value %d", p.tok, r.tok))
 			}
 		}
-		d := &vfDecision{MaxCost: s.maxCost, Used: s.used, Costs: map[uint64]int64{}, Est: est, InKey: p.key, InCost: c, Added: !rejected}
+		// "remaining capacity" for C09 is MaxCost minus the costs of the resident keys (what C03 says RemainingCost() is)
+		d := &vfDecision{MaxCost: s.maxCost, Costs: map[uint64]int64{}, Est: est, InKey: p.key, InCost: c, Added: !rejected}
 		for k, v := range s.acct {
 			d.Costs[k] = v
+			d.Used += v
 		}
 		if est != nil {
 			d.InEst = est[p.key]
